@@ -67,7 +67,12 @@ pub fn for_each_string(alpha: &[char], len: usize, f: &mut dyn FnMut(&str)) {
 /// a random Unicode scalar value, biased towards interesting ranges
 pub fn random_char(r: &mut SplitMix64) -> char {
     loop {
-        let c = match r.below(10) {
+        let c = match r.below(11) {
+            // code points that text-handling code likes to treat specially: byte-order mark, no-break / ideographic / other Unicode
+            // spaces, line and paragraph separators, zero-width characters, letters with odd case mappings, a combining mark,
+            // look-alikes of the quote and the backslash, the replacement character, the edges of the surrogate gap, the last code point
+            10 => *r.pick(&[0xFEFFu32, 0xA0, 0x85, 0x2028, 0x2029, 0x200B, 0x200D, 0x3000, 0x1680, 0x2003, 0x130, 0xDF, 0x301, 0xFFFD, 0xFFFE, 0xD7FF, 0xE000, 0x10FFFF,
+                0xFF07, 0x2019, 0x2BC, 0xFF3C, 0xAD, 0x7F, 0x0B, 0x0C]),
             0..=3 => 0x20 + r.below(0x5f) as u32,
             4 => r.below(0x20) as u32,
             5 => 0x80 + r.below(0x780) as u32,
